@@ -645,8 +645,12 @@ copy_sds(int32 sd_in, int32 sd_out, int32 tag, /* tag of input SDS */
         /* add dimension name to dimension scales table */
         dim_table_add(td2, -1, dim_name);
 
-        /* set output dimension name */
-        if (SDsetdimname(dim_out, dim_name) == FAIL) {
+        /* set output dimension name. A default name ("fakeDim<n>", numbered by the library in creation
+           order) is not re-applied: the output numbers its own default names, and <n> may already belong
+           to another dimension there */
+        if (!(strncmp(dim_name, "fakeDim", 7) == 0 && dim_name[7] != '\0' &&
+              strspn(dim_name + 7, "0123456789") == strlen(dim_name + 7)) &&
+            SDsetdimname(dim_out, dim_name) == FAIL) {
             printf("Failed to set dimension name %d of SDS <%s>\n", i, path);
             goto out;
         }
